@@ -3,7 +3,8 @@
    acceptance premise of C01_transfer can be discharged without running the specification. *)
 From Coq Require Import ZArith Lia.
 From Trzsz Require Import Base.Bytes Gen.Consts Model.Path Model.Fs Model.Names Model.Transfer
-  Proofs.PathFs Proofs.Names Proofs.TransferFs.
+  Proofs.PathFs Proofs.Names Proofs.TransferArchive Proofs.TransferResume Proofs.TransferFs.
+From Trzsz Require Model.Resume Model.Archive.
 
 (* ---------- success of the file-system primitives ---------- *)
 Notation len_ok := tr_len_ok.
@@ -141,7 +142,46 @@ Proof.
   rewrite A. unfold old_content. rewrite Hl. destruct t; rewrite write0_nil_l; reflexivity.
 Qed.
 
+(* an existing regular file may be opened as well *)
+Lemma do_create_file_any p n t x st : chain (st_fs st) p -> Forall comp_ok p -> comp_ok n ->
+  lookup (st_fs st) (p ++ [n]) <> Some Dir ->
+  exists st', do_create_file (p ++ [n]) t x st = (true, st') /\ st_map st' = st_map st /\
+    lookup (st_fs st') (p ++ [n]) = Some (File (write0 (if t then [] else old_content (st_fs st) (p ++ [n])) x)) /\
+    forall q, q <> p ++ [n] -> lookup (st_fs st') q = lookup (st_fs st) q.
+Proof.
+  intros Hc Hp Hn Hl.
+  destruct (open_create_ok (st_fs st) p n t x Hc Hp Hn Hl) as (f' & es & E).
+  unfold do_create_file. rewrite E. eexists. split; [reflexivity|]. cbn [st_map st_fs]. split; [reflexivity|].
+  destruct (open_create_result _ _ _ _ _ _ E) as (A & B & _). split; [exact A | exact B].
+Qed.
+
+(* createDirOrFile's last step: a new directory, a new file, or (where a file goes) an existing file *)
+Lemma create_leaf_ready s p n t x ln st : chain (st_fs st) p -> Forall comp_ok p -> comp_ok n ->
+  (s_archive s = true -> s_isdir s = true) ->
+  (lookup (st_fs st) (p ++ [n]) = None \/ (s_isdir s = false /\ exists old, lookup (st_fs st) (p ++ [n]) = Some (File old))) ->
+  exists st', create_leaf s (p ++ [n]) t x ln st = (NOk ln, st') /\ st_map st' = st_map st /\
+    lookup (st_fs st') (p ++ [n]) =
+      Some (if s_isdir s then Dir else File (write0 (if t then [] else old_content (st_fs st) (p ++ [n])) x)) /\
+    forall q, q <> [] -> q <> p ++ [n] -> lookup (st_fs st') q = lookup (st_fs st) q.
+Proof.
+  intros Hc Hp Hn Ha Hl. unfold create_leaf.
+  assert (HD : s_isdir s = true -> exists st', do_create_directory (p ++ [n]) st = (true, st') /\ st_map st' = st_map st /\
+             lookup (st_fs st') (p ++ [n]) = Some Dir /\ forall q, q <> [] -> q <> p ++ [n] -> lookup (st_fs st') q = lookup (st_fs st) q).
+  { intro Hd. destruct Hl as [Hl|[Hf _]]; [|congruence]. apply do_create_directory_new; assumption. }
+  destruct (s_archive s).
+  - rewrite (Ha eq_refl) in *. cbn [negb]. destruct (HD eq_refl) as (st' & E & M & A & B). rewrite E. eauto 6.
+  - destruct (s_isdir s).
+    + destruct (HD eq_refl) as (st' & E & M & A & B). rewrite E. eauto 6.
+    + assert (Hnd : lookup (st_fs st) (p ++ [n]) <> Some Dir).
+      { destruct Hl as [Hl|[_ (old & Hl)]]; rewrite Hl; discriminate. }
+      destruct (do_create_file_any p n t x st Hc Hp Hn Hnd) as (st' & E & M & A & B). rewrite E.
+      exists st'. split; [reflexivity|]. split; [exact M|]. split; [exact A|]. intros q _ Hq. apply B, Hq.
+Qed.
+
 Section Progress.
+Variable hx : list byte -> Resume.digest.
+Variable ahdr : src -> Z -> list byte.
+Variable aparse : list byte -> option (src * Z).
 Variable c : tr_cfg.
 Variable d : path.
 Hypothesis Hd_ok : Forall comp_ok d.
@@ -149,6 +189,8 @@ Hypothesis Hd_ok : Forall comp_ok d.
 Notation name_fine := tr_name_fine.
 Notation entry_clean := (tr_entry_clean c).
 Notation leaf_of := (tr_leaf_of c d).
+Notation spec_entry := (tr_spec_entry hx ahdr aparse c d).
+Notation spec := (tr_spec hx ahdr aparse c d).
 
 (* how the local name will be resolved to the name as sent *)
 Definition resolves (st : state) (e : tr_entry) : Prop :=
@@ -177,29 +219,37 @@ Proof.
   rewrite (stat_absent f d nm Hc Hd_ok (conj Hn1 Hn2) Hl). reflexivity.
 Qed.
 
+(* what is at the place of an entry: nothing, or (overwrite on, a file goes there) a regular file *)
+Definition place_st (st : state) (e : tr_entry) : Prop :=
+  lookup (st_fs st) (leaf_of e) = None \/
+  (tc_overwrite c = true /\ te_isdir e = false /\ exists old, lookup (st_fs st) (leaf_of e) = Some (File old)).
+
 Lemma create_ready e st x :
-  chain (st_fs st) d -> entry_clean e ->
+  chain (st_fs st) d -> entry_clean e -> (tr_has_subs e = true -> te_isdir e = true) ->
   chain (st_fs st) (d ++ removelast (tr_key c e :: tr_tail c e)) ->
-  lookup (st_fs st) (leaf_of e) = None -> resolves st e ->
+  place_st st e -> resolves st e ->
   exists st', tr_create c d (tr_payload c e) x st = (NOk (tr_key c e), st') /\
-    lookup (st_fs st') (leaf_of e) = Some (if te_isdir e then Dir else File x) /\
+    lookup (st_fs st') (leaf_of e) =
+      Some (if te_isdir e then Dir
+            else File (write0 (if tr_json_names c then old_content (st_fs st) (leaf_of e) else []) x)) /\
     (forall q, q <> [] -> q <> leaf_of e -> lookup (st_fs st') q = lookup (st_fs st) q) /\
     st_map st' = map_after st e.
 Proof.
-  intros Hc (Hfine & Hrel & Hdj) Hpar Hleaf Hres. unfold tr_leaf_of, map_after, resolves in *.
+  intros Hc (Hfine & Hrel & Hdj) Harch Hpar Hplace Hres. unfold place_st, tr_leaf_of, map_after, resolves in *.
   unfold tr_create, tr_key, tr_tail, tr_payload in *. destruct (tr_json c) eqn:Ej.
   - (* JSON names *)
     cbn [tr_p_head tr_p_tail s_rel] in *. destruct (te_rel e) as [|r0 rest] eqn:Er; [exfalso; apply Hrel; reflexivity|].
     cbn [hd tl] in *. clear Hrel.
     assert (HJ : forall t, exists st',
       recv_json code_checks (tr_names_cfg c) d
-        (Some {| s_id := te_id e; s_rel := r0 :: rest; s_isdir := te_isdir e; s_archive := false |}) t x st = (NOk r0, st') /\
-      lookup (st_fs st') (d ++ r0 :: rest) = Some (if te_isdir e then Dir else File x) /\
+        (Some {| s_id := te_id e; s_rel := r0 :: rest; s_isdir := te_isdir e; s_archive := tr_has_subs e |}) t x st = (NOk r0, st') /\
+      lookup (st_fs st') (d ++ r0 :: rest) =
+        Some (if te_isdir e then Dir else File (write0 (if t then [] else old_content (st_fs st) (d ++ r0 :: rest)) x)) /\
       (forall q, q <> [] -> q <> d ++ r0 :: rest -> lookup (st_fs st') q = lookup (st_fs st) q) /\
       st_map st' = (if tc_overwrite c then st_map st
                     else match map_get (st_map st) (te_id e) with Some _ => st_map st | None => (te_id e, r0) :: st_map st end)).
     { intro t. unfold recv_json. cbn [s_rel]. destruct code_checks_on as [Hu _]. rewrite Hu, (fine_valid _ Hfine). cbn [andb negb].
-      unfold create_dir_or_file. cbn [tr_names_cfg overwrite s_id s_isdir s_archive].
+      unfold create_dir_or_file. cbn [tr_names_cfg overwrite s_id].
       inversion Hfine as [|? ? Hf0 Hfr]; subst.
       (* the chosen name is r0, the file system is untouched by the choice *)
       set (chosen := if tc_overwrite c then Some (r0, st) else _).
@@ -208,18 +258,20 @@ Proof.
                               else match map_get (st_map st) (te_id e) with Some _ => st_map st | None => (te_id e, r0) :: st_map st end)).
       { subst chosen. destruct (tc_overwrite c) eqn:Eo; [exists st; auto|]. specialize (Hres eq_refl eq_refl).
         destruct (map_get (st_map st) (te_id e)) as [v|] eqn:Em; [subst v; exists st; auto|]. subst rest.
+        destruct Hplace as [Hleaf|[Hx _]]; [|discriminate].
         rewrite (get_new_name_self _ r0 Hc Hf0 Hleaf). eexists. split; [reflexivity|]. split; reflexivity. }
       destruct Hch as (st1 & -> & Ef & Em1).
       assert (Hc1 : chain (st_fs st1) d) by (rewrite Ef; exact Hc).
+      set (sr := {| s_id := te_id e; s_rel := r0 :: rest; s_isdir := te_isdir e; s_archive := tr_has_subs e |}).
+      assert (Hsa : s_archive sr = true -> s_isdir sr = true) by exact Harch.
       destruct rest as [|c2 rest].
-      - rewrite join_good by (constructor; [apply fine_good, Hf0 | constructor]). unfold create_leaf. cbn [s_archive s_isdir].
-        rewrite <- Ef in Hleaf. destruct (te_isdir e).
-        + destruct (do_create_directory_new d r0 st1 Hc1 Hd_ok (proj2 Hf0) Hleaf) as (st' & E & M & A & B).
-          rewrite E. exists st'. split; [reflexivity|]. split; [exact A|]. split; [intros q H1 H2; rewrite <- Ef; apply B; assumption|].
-          rewrite M. exact Em1.
-        + destruct (do_create_file_new d r0 t x st1 Hc1 Hd_ok (proj2 Hf0) Hleaf) as (st' & E & M & A & B).
-          rewrite E. exists st'. split; [reflexivity|]. split; [exact A|]. split; [intros q _ H2; rewrite <- Ef; apply B; assumption|].
-          rewrite M. exact Em1.
+      - rewrite join_good by (constructor; [apply fine_good, Hf0 | constructor]).
+        assert (Hpl : lookup (st_fs st1) (d ++ [r0]) = None \/
+                      (s_isdir sr = false /\ exists old, lookup (st_fs st1) (d ++ [r0]) = Some (File old))).
+        { rewrite Ef. destruct Hplace as [Hl|(_ & Hd & Ho)]; [left; exact Hl | right; split; [exact Hd | exact Ho]]. }
+        destruct (create_leaf_ready sr d r0 t x r0 st1 Hc1 Hd_ok (proj2 Hf0) Hsa Hpl) as (st' & E & M & A & B).
+        rewrite E. exists st'. split; [reflexivity|]. rewrite Ef in A. split; [exact A|].
+        split; [intros q H1 H2; rewrite <- Ef; apply B; assumption|]. rewrite M. exact Em1.
       - destruct (forall_good_split (c2 :: rest) ltac:(discriminate) (fine_goods _ Hfr)) as [Hgm Hgl].
         assert (Hsplit : c2 :: rest = removelast (c2 :: rest) ++ [last (c2 :: rest) []]) by (apply app_removelast_last; discriminate).
         set (mids := removelast (c2 :: rest)) in *. set (lst := last (c2 :: rest) []) in *.
@@ -228,19 +280,19 @@ Proof.
         destruct Hfm as [Hfm Hfl].
         rewrite (join_good (r0 :: mids)) by (constructor; [apply fine_good, Hf0 | exact Hgm]).
         assert (Hparent : d ++ removelast (r0 :: c2 :: rest) = d ++ r0 :: mids) by reflexivity.
-        rewrite Hparent in Hpar. rewrite <- Ef in Hpar, Hleaf.
+        rewrite Hparent in Hpar. rewrite <- Ef in Hpar.
         assert (Hpc : Forall comp_ok (d ++ r0 :: mids)).
         { apply Forall_app. split; [exact Hd_ok|]. constructor; [exact (proj2 Hf0) | apply fine_comp, Hfm]. }
         rewrite (do_create_directory_exists _ st1 Hpar Hpc).
         rewrite join_good by (constructor; [apply fine_good, Hfl | constructor]).
         assert (Hlf : (d ++ r0 :: mids) ++ [lst] = d ++ r0 :: c2 :: rest) by (rewrite Hsplit, <- app_assoc; reflexivity).
-        rewrite <- Hlf in Hleaf |- *. unfold create_leaf. cbn [s_archive s_isdir]. destruct (te_isdir e).
-        + destruct (do_create_directory_new _ lst st1 Hpar Hpc (proj2 Hfl) Hleaf) as (st' & E & M & A & B).
-          rewrite E. exists st'. split; [reflexivity|]. split; [exact A|]. split; [intros q H1 H2; rewrite <- Ef; apply B; assumption|].
-          rewrite M. exact Em1.
-        + destruct (do_create_file_new _ lst t x st1 Hpar Hpc (proj2 Hfl) Hleaf) as (st' & E & M & A & B).
-          rewrite E. exists st'. split; [reflexivity|]. split; [exact A|]. split; [intros q _ H2; rewrite <- Ef; apply B; assumption|].
-          rewrite M. exact Em1. }
+        rewrite <- Hlf in Hplace |- *.
+        assert (Hpl : lookup (st_fs st1) ((d ++ r0 :: mids) ++ [lst]) = None \/
+                      (s_isdir sr = false /\ exists old, lookup (st_fs st1) ((d ++ r0 :: mids) ++ [lst]) = Some (File old))).
+        { rewrite Ef. destruct Hplace as [Hl|(_ & Hd & Ho)]; [left; exact Hl | right; split; [exact Hd | exact Ho]]. }
+        destruct (create_leaf_ready sr _ lst t x r0 st1 Hpar Hpc (proj2 Hfl) Hsa Hpl) as (st' & E & M & A & B).
+        rewrite E. exists st'. split; [reflexivity|]. rewrite Ef in A. split; [exact A|].
+        split; [intros q H1 H2; rewrite <- Ef; apply B; assumption|]. rewrite M. exact Em1. }
     destruct (tr_json_names c) eqn:Ejn; [apply HJ|].
     assert (Hdir : tc_directory c = true) by (unfold tr_json in Ej; rewrite Ejn in Ej; exact Ej).
     rewrite Hdir. apply HJ.
@@ -249,28 +301,33 @@ Proof.
     assert (Hnd : te_isdir e = false) by (destruct (te_isdir e); [specialize (Hdj eq_refl); discriminate | reflexivity]).
     rewrite Hnd. unfold create_file. destruct code_checks_on as [_ Hck]. rewrite Hck, (proj1 Hf0). cbn [andb negb].
     cbn [tr_names_cfg overwrite].
+    assert (Hjn : tr_json_names c = false) by (unfold tr_json in Ej; apply orb_false_iff in Ej; tauto).
     assert (Hname : (if tc_overwrite c then Some (te_name e) else get_new_name (st_fs st) d (te_name e)) = Some (te_name e)).
-    { destruct (tc_overwrite c); [reflexivity|]. apply get_new_name_self; assumption. }
+    { destruct (tc_overwrite c) eqn:Eo; [reflexivity|]. destruct Hplace as [Hleaf|[Hx _]]; [|discriminate]. apply get_new_name_self; assumption. }
     rewrite Hname. rewrite join_good by (constructor; [apply fine_good, Hf0 | constructor]).
-    destruct (do_create_file_new d (te_name e) true x st Hc Hd_ok (proj2 Hf0) Hleaf) as (st' & E & M & A & B).
-    rewrite E. exists st'. split; [reflexivity|]. split; [exact A|]. split; [intros q _ H2; apply B; assumption|].
+    assert (Hnotdir : lookup (st_fs st) (d ++ [te_name e]) <> Some Dir).
+    { destruct Hplace as [Hl|(_ & _ & old & Hl)]; rewrite Hl; discriminate. }
+    destruct (do_create_file_any d (te_name e) true x st Hc Hd_ok (proj2 Hf0) Hnotdir) as (st' & E & M & A & B).
+    rewrite E. exists st'. split; [reflexivity|]. rewrite Hjn. split; [exact A|]. split; [intros q _ H2; apply B; assumption|].
     rewrite M. destruct (tc_overwrite c); reflexivity.
 Qed.
-
 
 (* ---------- the whole list ---------- *)
 Variable f0 : fs.
 
-Notation tr_ready' := (tr_ready c d f0).
+Notation tr_ready' := (tr_ready hx c d f0).
 
-Definition PInv (st : state) (done todo : list tr_entry) : Prop :=
+(* [q] is none of the places the entries received so far have written to *)
+Definition untouched (done : list tr_entry) (q : path) : Prop :=
+  forall e, In e done -> q <> leaf_of e /\ (te_subs e <> [] -> is_prefix (leaf_of e) q = false).
+
+Definition PInv (st : state) (done : list tr_entry) : Prop :=
   chain (st_fs st) d /\
   (forall e, In e done -> te_isdir e = true -> chain (st_fs st) (leaf_of e)) /\
-  (forall e, In e todo -> lookup (st_fs st) (leaf_of e) = None) /\
   (tc_overwrite c = false -> tr_json c = true ->
      (forall e, In e done -> map_get (st_map st) (te_id e) = Some (tr_key c e)) /\
      (forall id v, map_get (st_map st) id = Some v -> exists e, In e done /\ te_id e = id)) /\
-  (forall q, q <> [] -> (forall e, In e done -> q <> leaf_of e) -> lookup (st_fs st) q = lookup f0 q).
+  (forall q, q <> [] -> untouched done q -> lookup (st_fs st) q = lookup f0 q).
 
 Lemma leaf_not_nil e : leaf_of e <> [].
 Proof. unfold tr_leaf_of. destruct d; discriminate. Qed.
@@ -291,99 +348,254 @@ Proof.
   rewrite (Hf (x :: a) b Hab) by discriminate. exact Hc.
 Qed.
 
-Lemma progress_step es st done e todo : tr_ready' es -> es = done ++ e :: todo -> PInv st done (e :: todo) ->
-  exists st', tr_spec_entry c d e st = Some (tr_key c e, st') /\ PInv st' (done ++ [e]) todo.
+(* a prefix of one entry's place that lies below another top-level name: the names are equal *)
+Lemma prefix_under_top k k' t' a b : d ++ k' :: t' = a ++ b -> is_prefix (d ++ [k]) a = true -> k = k'.
 Proof.
-  intros (Hclean & Hdist & Hpar & Hids & _) Hes (Hc & Hdirs & Habs & Hmap & Hframe).
-  assert (Hin : In e es) by (rewrite Hes; apply in_or_app; right; left; reflexivity).
+  intros Hab Hp. apply is_prefix_spec in Hp as (r & ->). rewrite <- !app_assoc in Hab. apply app_inv_head in Hab.
+  cbn [app] in Hab. inversion Hab. reflexivity.
+Qed.
+
+(* in archive mode every item is a top-level entry *)
+Lemma arch_top items e : tr_ready' items -> tr_archive_mode c = true -> In e (map fst items) -> tr_tail c e = [].
+Proof.
+  intros (_ & _ & Hpar & _ & _ & _ & Hnd) Ham Hin. specialize (Hnd Ham).
+  destruct (tr_tail c e) eqn:Et; [reflexivity|]. exfalso.
+  apply in_split in Hin as (pre & post & Hes). destruct (Hpar pre e post Hes) as (e' & Hin' & _ & Hid & _); [rewrite Et; discriminate|].
+  rewrite Hes in Hnd. apply (nodup_mid te_id _ _ _ Hnd e' Hin' Hid).
+Qed.
+
+(* the state after an entry, however it was received: only its own place (an archive: what is below its
+   name) differs from the state before, a directory is there, the name map has the entry *)
+Lemma pinv_step items st done e sc todo st' : tr_ready' items -> items = done ++ (e, sc) :: todo -> PInv st (map fst done) ->
+  (forall q, q <> [] -> (if tr_has_subs e then is_prefix (leaf_of e) q = false else q <> leaf_of e) ->
+     lookup (st_fs st') q = lookup (st_fs st) q) ->
+  (te_isdir e = true -> lookup (st_fs st') (leaf_of e) = Some Dir) ->
+  st_map st' = map_after st e -> resolves st e ->
+  chain (st_fs st) (d ++ removelast (tr_key c e :: tr_tail c e)) ->
+  PInv st' (map fst (done ++ [(e, sc)])).
+Proof.
+  intros Hr Hes (Hc & Hdirs & Hmap & Hframe) Hfr Hl' Hmp Hres Hparent.
+  pose proof Hr as (Hclean & Hdist & Hpar & Hids & _ & Harc & Hnd).
+  assert (Hesf : map fst items = map fst done ++ e :: map fst todo) by (rewrite Hes, map_app; reflexivity).
+  assert (Hin : In e (map fst items)) by (rewrite Hesf; apply in_or_app; right; left; reflexivity).
+  (* the places of the other entries are not touched by this one *)
+  assert (Hsub_e : tr_has_subs e = true -> tr_archive_mode c = true /\ leaf_of e = d ++ [tr_key c e]).
+  { intro Hs. assert (Hne : te_subs e <> []) by (unfold tr_has_subs in Hs; destruct (te_subs e); discriminate).
+    destruct (Harc e Hin Hne) as (Ham & _). split; [exact Ham|]. unfold tr_leaf_of. rewrite (arch_top items e Hr Ham Hin). reflexivity. }
+  assert (Hother : forall e', In e' (map fst done) -> forall a b, leaf_of e' = a ++ b -> a <> [] ->
+            (if tr_has_subs e then is_prefix (leaf_of e) a = false else a <> leaf_of e)).
+  { intros e' Hin' a b Hab Ha. destruct (tr_has_subs e) eqn:Hs.
+    - destruct (Hsub_e eq_refl) as [Ham Hle]. rewrite Hle.
+      destruct (is_prefix (d ++ [tr_key c e]) a) eqn:Ep; [|reflexivity]. exfalso.
+      unfold tr_leaf_of in Hab. pose proof (prefix_under_top _ _ _ _ _ Hab Ep) as Hk.
+      assert (Hid : te_id e = te_id e') by (apply Hids; [exact Hin | rewrite Hesf; apply in_or_app; left; exact Hin' | exact Hk]).
+      specialize (Hnd Ham). rewrite Hesf in Hnd. apply (nodup_mid te_id _ _ _ Hnd e' Hin'). congruence.
+    - intros ->. pose proof (Hdirs e') as Hx. clear Hx.
+      (* a proper prefix of an earlier place, or that place itself: the latter is excluded by distinctness,
+         the former is a directory chain element, handled by the callers *)
+      destruct b as [|b0 b].
+      + rewrite app_nil_r in Hab. unfold tr_leaf_of in Hab. apply app_inv_head in Hab.
+        rewrite Hesf, map_app in Hdist. cbn [map] in Hdist. apply NoDup_remove_2 in Hdist. apply Hdist.
+        rewrite <- Hab. apply in_or_app. left. apply in_map_iff. exists e'. auto.
+      + (* the new place is a proper prefix of an earlier one: then the new entry is that one's ancestor
+           directory and would have had to come first *)
+        exfalso. assert (Hlt : (length (tr_key c e :: tr_tail c e) < length (tr_key c e' :: tr_tail c e'))%nat).
+        { unfold tr_leaf_of in Hab. apply (f_equal (@length name)) in Hab. rewrite !app_length in Hab. cbn [length] in *. lia. }
+        (* walk up from e' to the ancestor of the length of e's path *)
+        assert (Hanc : forall n x, In x (map fst done) -> (length (tr_key c x :: tr_tail c x) = n + length (tr_key c e :: tr_tail c e))%nat ->
+                  is_prefix (leaf_of e) (leaf_of x) = true -> False).
+        { induction n as [|n IHn]; intros x Hx Hlen Hpx.
+          - apply is_prefix_spec in Hpx as (r & Hr'). unfold tr_leaf_of in Hr'. rewrite <- app_assoc in Hr'. apply app_inv_head in Hr'.
+            assert (r = []).
+            { apply (f_equal (@length name)) in Hr'. rewrite app_length in Hr'. cbn [plus] in Hlen. destruct r; [reflexivity | cbn [length] in *; lia]. }
+            subst r. rewrite app_nil_r in Hr'.
+            rewrite Hesf, map_app in Hdist. cbn [map] in Hdist. apply NoDup_remove_2 in Hdist. apply Hdist.
+            rewrite <- Hr'. apply in_or_app. left. apply in_map_iff. exists x. auto.
+          - assert (Htx : tr_tail c x <> []).
+            { intro Ht0. rewrite Ht0 in Hlen. cbn [length] in Hlen. lia. }
+            apply in_split in Hx as (pre & post & Hdone).
+            assert (Hsplit : map fst items = pre ++ x :: (post ++ e :: map fst todo)).
+            { rewrite Hesf, Hdone, <- app_assoc. reflexivity. }
+            destruct (Hpar pre x _ Hsplit Htx) as (y & Hy & _ & _ & Hky).
+            apply (IHn y).
+            + rewrite Hdone. apply in_or_app. left. exact Hy.
+            + rewrite Hky. assert (Hl2 : (length (removelast (tr_key c x :: tr_tail c x)) = length (tr_key c x :: tr_tail c x) - 1)%nat).
+              { destruct (tr_tail c x) as [|t0 tl0] using rev_ind; [congruence|]. clear IHtl0.
+                change (tr_key c x :: tl0 ++ [t0]) with ((tr_key c x :: tl0) ++ [t0]). rewrite removelast_last, app_length. cbn. lia. }
+              lia.
+            + unfold tr_leaf_of. rewrite Hky. apply is_prefix_spec in Hpx as (r & Hr'). unfold tr_leaf_of in Hr'.
+              rewrite <- app_assoc in Hr'. apply app_inv_head in Hr'.
+              destruct r as [|r0 r] using rev_ind.
+              { exfalso. rewrite app_nil_r in Hr'. rewrite Hr' in Hlen. lia. }
+              clear IHr. rewrite app_assoc in Hr'. rewrite Hr', removelast_last. apply is_prefix_spec. exists r. rewrite <- app_assoc. reflexivity. }
+        apply (Hanc (length (tr_key c e' :: tr_tail c e') - length (tr_key c e :: tr_tail c e))%nat e' Hin'); [lia|].
+        apply is_prefix_spec. exists (b0 :: b). exact Hab. }
+  unfold PInv. split; [|split; [|split]].
+  - apply (chain_frame_eq _ _ _ Hc). intros a b Hab Ha. apply Hfr; [exact Ha|].
+    destruct (tr_has_subs e) eqn:Hs.
+    + destruct (Hsub_e eq_refl) as [_ ->]. apply (is_prefix_longer d _ a b Hab).
+    + intro Heq. apply (f_equal (@length name)) in Heq. unfold tr_leaf_of in Heq. rewrite Hab, !app_length in Heq. cbn in Heq. lia.
+  - intros e' Hin' Hd'. rewrite map_app in Hin'. cbn [map fst] in Hin'. apply in_app_or in Hin' as [Hin'|[<-|[]]].
+    + apply (chain_frame_eq _ _ _ (Hdirs e' Hin' Hd')). intros a b Hab Ha. apply Hfr; [exact Ha|].
+      apply (Hother e' Hin' a b Hab Ha).
+    + (* the new directory: its parent chain plus itself *)
+      specialize (Hl' Hd').
+      assert (Hsp : leaf_of e = (d ++ removelast (tr_key c e :: tr_tail c e)) ++ [last (tr_key c e :: tr_tail c e) []]).
+      { unfold tr_leaf_of. rewrite <- app_assoc. f_equal. apply app_removelast_last. discriminate. }
+      rewrite Hsp in Hl' |- *. apply chain_extend; [|exact Hl'].
+      apply (chain_frame_eq _ _ _ Hparent). intros a b Hab Ha. apply Hfr; [exact Ha|].
+      destruct (tr_has_subs e) eqn:Hs.
+      * destruct (Hsub_e eq_refl) as [Ham Hle]. rewrite Hle. rewrite (arch_top items e Hr Ham Hin) in Hab.
+        cbn [removelast] in Hab. rewrite app_nil_r in Hab. apply (is_prefix_longer d _ a b Hab).
+      * intro Heq. rewrite Hsp in Heq. subst a. apply (f_equal (@length name)) in Hab. rewrite !app_length in Hab. cbn in Hab. lia.
+  - intros Eo Ej. destruct (Hmap Eo Ej) as (Hm1 & Hm2). rewrite Hmp. unfold map_after. rewrite Eo, Ej.
+    specialize (Hres Eo Ej). rewrite map_app. cbn [map fst]. destruct (map_get (st_map st) (te_id e)) as [v|] eqn:Em.
+    + subst v. split.
+      * intros e' Hin'. apply in_app_or in Hin' as [Hin'|[<-|[]]]; [apply Hm1, Hin' | exact Em].
+      * intros id v Hv. destruct (Hm2 _ _ Hv) as (e' & Hi & He). exists e'. split; [apply in_or_app; left; exact Hi | exact He].
+    + split.
+      * intros e' Hin'. cbn [map_get]. apply in_app_or in Hin' as [Hin'|[<-|[]]].
+        -- destruct (Z.eqb (te_id e) (te_id e')) eqn:Ez; [|apply Hm1, Hin'].
+           apply Z.eqb_eq in Ez. rewrite Ez, (Hm1 e' Hin') in Em. discriminate.
+        -- rewrite Z.eqb_refl. reflexivity.
+      * intros id v. cbn [map_get]. destruct (Z.eqb (te_id e) id) eqn:Ez.
+        -- intros _. apply Z.eqb_eq in Ez. exists e. split; [apply in_or_app; right; left; reflexivity | exact Ez].
+        -- intro Hv. destruct (Hm2 _ _ Hv) as (e' & Hi & He). exists e'. split; [apply in_or_app; left; exact Hi | exact He].
+  - intros q Hq Hun. rewrite map_app in Hun. cbn [map fst] in Hun.
+    assert (Hine : In e (map fst done ++ [e])) by (apply in_or_app; right; left; reflexivity).
+    destruct (Hun e Hine) as [Hq1 Hq2].
+    rewrite Hfr; [apply Hframe; [exact Hq|] | exact Hq|].
+    + intros e' Hi. apply Hun. apply in_or_app; left; exact Hi.
+    + destruct (tr_has_subs e) eqn:Hs; [|exact Hq1]. apply Hq2. unfold tr_has_subs in Hs. destruct (te_subs e); discriminate.
+Qed.
+
+Lemma progress_step items st done e sc todo : tr_ready' items -> tr_hdrs_ok ahdr aparse (map fst items) ->
+  items = done ++ (e, sc) :: todo -> PInv st (map fst done) ->
+  exists st', spec_entry e sc st = Some (tr_key c e, st') /\ tr_coll_ok hx c d e st /\ PInv st' (map fst (done ++ [(e, sc)])).
+Proof.
+  intros Hr Hh Hes HI. pose proof HI as (Hc & Hdirs & Hmap & Hframe).
+  pose proof Hr as (Hclean & Hdist & Hpar & Hids & Hplaces & Harc & Hnd).
+  assert (Hesf : map fst items = map fst done ++ e :: map fst todo) by (rewrite Hes, map_app; reflexivity).
+  assert (Hin : In e (map fst items)) by (rewrite Hesf; apply in_or_app; right; left; reflexivity).
   assert (Hce : entry_clean e) by (rewrite Forall_forall in Hclean; apply Hclean, Hin).
   pose proof Hce as (Hfine & Hrel & Hdj).
   (* the parent directory is there *)
   assert (Hparent : chain (st_fs st) (d ++ removelast (tr_key c e :: tr_tail c e))).
   { destruct (tr_tail c e) as [|t0 tl0] eqn:Et; [cbn [removelast]; rewrite app_nil_r; exact Hc|].
-    destruct (Hpar done e todo Hes) as (e' & Hin' & Hd' & _ & Hk'); [rewrite Et; discriminate|].
+    destruct (Hpar (map fst done) e (map fst todo) Hesf) as (e' & Hin' & Hd' & _ & Hk'); [rewrite Et; discriminate|].
     rewrite Et in Hk'. rewrite <- Hk'. apply (Hdirs e' Hin' Hd'). }
-  assert (Hleaf : lookup (st_fs st) (leaf_of e) = None) by (apply Habs; left; reflexivity).
+  (* the place of the entry is as it was at the start *)
+  assert (Hsame : lookup (st_fs st) (leaf_of e) = lookup f0 (leaf_of e)).
+  { apply Hframe; [apply leaf_not_nil|]. intros e' Hin'. split.
+    - intro Heq. unfold tr_leaf_of in Heq. apply app_inv_head in Heq.
+      rewrite Hesf, map_app in Hdist. cbn [map] in Hdist. apply NoDup_remove_2 in Hdist. apply Hdist.
+      rewrite Heq. apply in_or_app. left. apply in_map_iff. exists e'. auto.
+    - intro Hne. assert (Hin2 : In e' (map fst items)) by (rewrite Hesf; apply in_or_app; left; exact Hin').
+      destruct (Harc e' Hin2 Hne) as (Ham & _). unfold tr_leaf_of. rewrite (arch_top items e' Hr Ham Hin2).
+      apply is_prefix_top. intro Hk. specialize (Hnd Ham). rewrite Hesf in Hnd.
+      apply (nodup_mid te_id _ _ _ Hnd e' Hin'). apply Hids; [exact Hin2 | exact Hin | symmetry; exact Hk]. }
+  assert (Hpl0 : tr_place_ok hx c d f0 (e, sc)) by (apply Hplaces; rewrite Hes; apply in_or_app; right; left; reflexivity).
+  unfold tr_place_ok in Hpl0. cbn [fst snd] in Hpl0.
+  assert (Hplace : place_st st e).
+  { unfold place_st. rewrite Hsame. destruct Hpl0 as [Hl|(Eo & Hd & old & Hl & _)]; [left; exact Hl | right; eauto]. }
   assert (Hres : resolves st e).
   { intros Eo Ej. destruct (Hmap Eo Ej) as (Hm1 & Hm2). destruct (map_get (st_map st) (te_id e)) as [v|] eqn:Em.
     - destruct (Hm2 _ _ Em) as (e' & Hin' & Hid'). rewrite <- Hid', (Hm1 e' Hin') in Em. inversion Em as [Hv]. clear Em.
-      apply Hids; [rewrite Hes; apply in_or_app; left; exact Hin' | exact Hin | exact Hid'].
+      apply Hids; [rewrite Hesf; apply in_or_app; left; exact Hin' | exact Hin | exact Hid'].
     - destruct (tr_tail c e) eqn:Et; [reflexivity|]. exfalso.
-      destruct (Hpar done e todo Hes) as (e' & Hin' & _ & Hid' & _); [rewrite Et; discriminate|].
+      destruct (Hpar (map fst done) e (map fst todo) Hesf) as (e' & Hin' & _ & Hid' & _); [rewrite Et; discriminate|].
       rewrite <- Hid', (Hm1 e' Hin') in Em. discriminate. }
-  set (x := if te_isdir e then [] else te_data e).
-  destruct (create_ready e st x Hc Hce Hparent Hleaf Hres) as (st' & Ecr & Hl' & Hfr & Hmp).
-  exists st'. split.
-  - (* the specification accepts the entry *)
-    unfold tr_spec_entry.
-    assert (E0 : te_isdir e && negb (tr_json c) = false).
-    { destruct (te_isdir e); [rewrite (Hdj eq_refl); reflexivity | reflexivity]. }
-    rewrite E0. subst x. clear Hdj. destruct (te_isdir e) eqn:Hd; [rewrite Ecr; reflexivity|].
-    destruct (create_ready e st [] Hc Hce Hparent Hleaf Hres) as (st1 & E1 & Hl1 & _).
-    rewrite E1. rewrite Hd in Hl1.
-    assert (Hts : tr_target_size d (tr_key c e) (tr_payload c e) st1 = 0).
-    { unfold tr_target_size, tr_leaf. fold (tr_tail c e). rewrite join_good by (apply fine_goods, Hfine).
-      fold (tr_leaf_of c d e). rewrite Hl1. reflexivity. }
-    rewrite Hts, N.ltb_irrefl, andb_false_r, Ecr. reflexivity.
-  - (* the invariant *)
-    assert (Hother : forall e', In e' done \/ In e' todo -> leaf_of e' <> leaf_of e).
-    { intros e' Hin' Heq. unfold tr_leaf_of in Heq. apply app_inv_head in Heq.
-      rewrite Hes, map_app in Hdist. cbn [map] in Hdist. apply NoDup_remove_2 in Hdist. apply Hdist.
-      rewrite <- Heq. apply in_or_app. destruct Hin' as [Hi|Hi]; [left | right]; apply in_map_iff; exists e'; auto. }
-    unfold PInv. split; [|split; [|split; [|split]]].
-    + apply (chain_frame_eq _ _ _ Hc). intros a b Hab Ha. apply Hfr; [exact Ha|].
-      intro Heq. apply (f_equal (@length name)) in Heq. unfold tr_leaf_of in Heq. rewrite Hab, !app_length in Heq. cbn in Heq. lia.
-    + intros e' Hin' Hd'. apply in_app_or in Hin' as [Hin'|[<-|[]]].
-      * apply (chain_frame_eq _ _ _ (Hdirs e' Hin' Hd')). intros a b Hab Ha. apply Hfr; [exact Ha|].
-        intro Heq. subst a. pose proof (Hdirs e' Hin' Hd' (leaf_of e) b Hab) as Hg. unfold get in Hg.
-        destruct (leaf_of e) eqn:El; [exact (leaf_not_nil e El) | congruence].
-      * (* the new directory: its parent chain plus itself *)
-        rewrite Hd' in Hl'.
-        assert (Hsp : leaf_of e = (d ++ removelast (tr_key c e :: tr_tail c e)) ++ [last (tr_key c e :: tr_tail c e) []]).
-        { unfold tr_leaf_of. rewrite <- app_assoc. f_equal. apply app_removelast_last. discriminate. }
-        rewrite Hsp in Hl' |- *. apply chain_extend; [|exact Hl'].
-        apply (chain_frame_eq _ _ _ Hparent). intros a b Hab Ha. apply Hfr; [exact Ha|].
-        intro Heq. rewrite Hsp in Heq. subst a. apply (f_equal (@length name)) in Hab. rewrite !app_length in Hab. cbn in Hab. lia.
-    + intros e' Hin'. rewrite Hfr; [apply Habs; right; exact Hin' | apply leaf_not_nil | apply Hother; right; exact Hin'].
-    + intros Eo Ej. destruct (Hmap Eo Ej) as (Hm1 & Hm2). rewrite Hmp. unfold map_after. rewrite Eo, Ej.
-      specialize (Hres Eo Ej). destruct (map_get (st_map st) (te_id e)) as [v|] eqn:Em.
-      * subst v. split.
-        -- intros e' Hin'. apply in_app_or in Hin' as [Hin'|[<-|[]]]; [apply Hm1, Hin' | exact Em].
-        -- intros id v Hv. destruct (Hm2 _ _ Hv) as (e' & Hi & He). exists e'. split; [apply in_or_app; left; exact Hi | exact He].
-      * split.
-        -- intros e' Hin'. cbn [map_get]. apply in_app_or in Hin' as [Hin'|[<-|[]]].
-           ++ destruct (Z.eqb (te_id e) (te_id e')) eqn:Ez; [|apply Hm1, Hin'].
-              apply Z.eqb_eq in Ez. rewrite Ez, (Hm1 e' Hin') in Em. discriminate.
-           ++ rewrite Z.eqb_refl. reflexivity.
-        -- intros id v. cbn [map_get]. destruct (Z.eqb (te_id e) id) eqn:Ez.
-           ++ intros _. apply Z.eqb_eq in Ez. exists e. split; [apply in_or_app; right; left; reflexivity | exact Ez].
-           ++ intro Hv. destruct (Hm2 _ _ Hv) as (e' & Hi & He). exists e'. split; [apply in_or_app; left; exact Hi | exact He].
-    + intros q Hq Hnl. rewrite Hfr; [apply Hframe; [exact Hq|] | exact Hq | apply Hnl; apply in_or_app; right; left; reflexivity].
-      intros e' Hi. apply Hnl. apply in_or_app; left; exact Hi.
+  assert (Harch : tr_has_subs e = true -> te_isdir e = true).
+  { intro Hs. assert (Hne : te_subs e <> []) by (unfold tr_has_subs in Hs; destruct (te_subs e); discriminate).
+    apply (Harc e Hin Hne). }
+  assert (E0 : te_isdir e && negb (tr_json c) = false).
+  { destruct (te_isdir e); [rewrite (Hdj eq_refl); reflexivity | reflexivity]. }
+  (* the first creation, with nothing written *)
+  destruct (create_ready e st [] Hc Hce Harch Hparent Hplace Hres) as (st1 & E1 & Hl1 & Hfr1 & Hmp1).
+  assert (Hleafeq : tr_leaf d (tr_key c e) (tr_payload c e) = leaf_of e).
+  { unfold tr_leaf. fold (tr_tail c e). rewrite join_good by (apply fine_goods, Hfine). reflexivity. }
+  (* the file the entry meets *)
+  assert (Hold1 : tr_old_content st1 (leaf_of e) =
+                  if te_isdir e then [] else if tr_json_names c then old_content (st_fs st) (leaf_of e) else []).
+  { unfold tr_old_content. rewrite Hl1. destruct (te_isdir e); [reflexivity|]. rewrite write0_nil_r. destruct (tr_json_names c); reflexivity. }
+  assert (Hcoll : tr_coll_ok hx c d e st).
+  { intros ln st1' E1' Hne. rewrite E1 in E1'. inversion E1'; subst ln st1'. rewrite Hleafeq in Hne |- *. rewrite Hold1 in Hne |- *.
+    destruct (te_isdir e); [congruence|]. destruct (tr_json_names c); [|congruence].
+    destruct Hpl0 as [Hl|(_ & _ & old & Hl & _ & Hnc)].
+    - exfalso. apply Hne. unfold old_content. rewrite Hsame, Hl. reflexivity.
+    - unfold old_content. rewrite Hsame, Hl. exact Hnc. }
+  unfold tr_spec_entry. rewrite E0, E1.
+  destruct (tr_has_subs e) eqn:Hsub.
+  - (* an archive *)
+    assert (Hne : te_subs e <> []) by (unfold tr_has_subs in Hsub; destruct (te_subs e); discriminate).
+    destruct (Harc e Hin Hne) as (Ham & Hwf & Hd).
+    destruct (arch_entry_ok ahdr e sc) as (f & Ef & Hdata & _). rewrite Ef, Hdata.
+    destruct (unarchive_ok ahdr aparse e sc Hwf (fun s Hs => Hh e s Hin Hs)) as (t & Et & Ht). rewrite Et.
+    eexists. split; [reflexivity|]. split; [exact Hcoll|].
+    assert (Hle : leaf_of e = d ++ [tr_key c e]) by (unfold tr_leaf_of; rewrite (arch_top items e Hr Ham Hin); reflexivity).
+    apply (pinv_step items st done e sc todo _ Hr Hes HI); [| | |exact Hres|exact Hparent].
+    + intros q Hq Hnp. rewrite Hsub in Hnp. unfold tr_graft_st. rewrite set_fs_fs. rewrite Hle in Hnp.
+      rewrite graft_lookup_out by exact Hnp. apply Hfr1; [exact Hq|]. intros ->.
+      rewrite Hle in Hnp. pose proof (is_prefix_app (d ++ [tr_key c e]) []) as Hx. rewrite app_nil_r in Hx. congruence.
+    + intros _. unfold tr_graft_st. rewrite set_fs_fs, Hle. apply (graft_root _ _ e t Ht).
+    + unfold tr_graft_st. rewrite set_fs_map. exact Hmp1.
+  - destruct (te_isdir e) eqn:Hd.
+    + (* a directory *)
+      eexists. split; [reflexivity|]. split; [exact Hcoll|].
+      apply (pinv_step items st done e sc todo st1 Hr Hes HI); [| | exact Hmp1 | exact Hres | exact Hparent].
+      * intros q Hq Hne. rewrite Hsub in Hne. apply Hfr1; assumption.
+      * intros _. exact Hl1.
+    + rewrite Hleafeq. unfold tr_target_size. rewrite Hleafeq, Hl1, write0_nil_r. cbv beta iota.
+      match goal with |- exists st', (if ?b then _ else _) = _ /\ _ => destruct b eqn:E2 end.
+      * (* the resume exchange *)
+        apply andb_true_iff in E2 as [Ej E2]. rewrite Ej in E2, Hold1. rewrite Hold1.
+        assert (Hold : exists old, lookup f0 (leaf_of e) = Some (File old) /\ old_content (st_fs st) (leaf_of e) = old /\
+                    tr_stops_ok hx sc (te_data e) old).
+        { unfold old_content in *. rewrite Hsame in *. destruct Hpl0 as [Hl|(_ & _ & old & Hl & Hst & _)]; rewrite Hl in *; [discriminate E2|].
+          exists old. auto. }
+        destruct Hold as (old & Hf0 & -> & Hst).
+        destruct (resume_run_done hx c e sc old Hst) as (o & ->).
+        eexists. split; [reflexivity|]. split; [exact Hcoll|].
+        apply (pinv_step items st done e sc todo _ Hr Hes HI); [| | |exact Hres|exact Hparent].
+        -- intros q Hq Hne. rewrite Hsub in Hne. rewrite set_file_lookup.
+           destruct (path_eqb (leaf_of e) q) eqn:Eq; [apply path_eqb_eq in Eq; congruence|]. apply Hfr1; assumption.
+        -- intro Hx; congruence.
+        -- rewrite set_file_map. exact Hmp1.
+      * (* a plain file *)
+        assert (Harch' : tr_has_subs e = true -> te_isdir e = true) by (rewrite Hsub; discriminate).
+        destruct (create_ready e st (te_data e) Hc Hce Harch' Hparent Hplace Hres) as (st2 & E3 & Hl2 & Hfr2 & Hmp2).
+        rewrite E3. eexists. split; [reflexivity|]. split; [exact Hcoll|].
+        apply (pinv_step items st done e sc todo st2 Hr Hes HI); [| | exact Hmp2 | exact Hres | exact Hparent].
+        -- intros q Hq Hne. rewrite Hsub in Hne. apply Hfr2; assumption.
+        -- intro Hx; congruence.
 Qed.
 
-Lemma progress_all es : tr_ready' es -> forall todo done st names, es = done ++ todo -> PInv st done todo ->
-  exists all stf, tr_spec c d todo st names = Some (map (tr_key c) todo, all, stf) /\ PInv stf es [].
+Lemma progress_all items : tr_ready' items -> tr_hdrs_ok ahdr aparse (map fst items) ->
+  forall todo done st names, items = done ++ todo -> PInv st (map fst done) ->
+  exists all stf, spec todo st names = Some (map (tr_key c) (map fst todo), all, stf) /\
+    tr_resume_safe hx ahdr aparse c d todo st /\ PInv stf (map fst items).
 Proof.
-  intro Hr. induction todo as [|e todo IH]; intros done st names Hes HI.
+  intros Hr Hh. induction todo as [|[e sc] todo IH]; intros done st names Hes HI.
   - cbn. rewrite app_nil_r in Hes. subst done. eauto.
-  - destruct (progress_step es st done e todo Hr Hes HI) as (st' & Es & HI').
-    cbn [tr_spec map]. rewrite Es.
-    destruct (IH (done ++ [e]) st' (tr_add_name names (tr_key c e))) as (all & stf & E & HF); [rewrite <- app_assoc; exact Hes | exact HI'|].
-    rewrite E. eauto.
+  - destruct (progress_step items st done e sc todo Hr Hh Hes HI) as (st' & Es & Hcoll & HI').
+    cbn [tr_spec map fst tr_resume_safe]. rewrite Es.
+    destruct (IH (done ++ [(e, sc)]) st' (tr_add_name names (tr_key c e))) as (all & stf & E & Hsafe & HF); [rewrite <- app_assoc; exact Hes | exact HI'|].
+    rewrite E. eauto 6.
 Qed.
 
-(* accepted, and nothing but the entries' own places has changed *)
-Theorem ready_accepts es : stat f0 d = SFound Dir -> tr_ready' es ->
-  exists all stf, tr_spec c d es (init_state f0) [] = Some (map (tr_key c) es, all, stf) /\
-    forall q, q <> [] -> (forall e, In e es -> q <> leaf_of e) -> lookup (st_fs stf) q = lookup f0 q.
+(* accepted, the premise about the digests holds along the run, and nothing but the entries' own places
+   (for an archive: what is below its name) has changed *)
+Theorem ready_accepts items : stat f0 d = SFound Dir -> tr_ready' items -> tr_hdrs_ok ahdr aparse (map fst items) ->
+  exists all stf, spec items (init_state f0) [] = Some (map (tr_key c) (map fst items), all, stf) /\
+    tr_resume_safe hx ahdr aparse c d items (init_state f0) /\
+    forall q, q <> [] -> untouched (map fst items) q -> lookup (st_fs stf) q = lookup f0 q.
 Proof.
-  intros Hd Hr.
-  destruct (progress_all es Hr es [] (init_state f0) [] eq_refl) as (all & stf & E & HF).
-  - destruct Hr as (_ & _ & _ & _ & Habs). unfold PInv. cbn [init_state st_fs st_map].
-    split; [apply stat_dir_chain, Hd|]. split; [intros e Hf; destruct Hf|]. split; [exact Habs|].
+  intros Hd Hr Hh.
+  destruct (progress_all items Hr Hh items [] (init_state f0) [] eq_refl) as (all & stf & E & Hsafe & HF).
+  - unfold PInv. cbn [init_state st_fs st_map map].
+    split; [apply stat_dir_chain, Hd|]. split; [intros e Hf; destruct Hf|].
     split; [|reflexivity]. intros _ _. split; [intros e Hf; destruct Hf | intros id v Hv; discriminate Hv].
-  - exists all, stf. split; [exact E|]. destruct HF as (_ & _ & _ & _ & F). exact F.
+  - exists all, stf. split; [exact E|]. split; [exact Hsafe|]. destruct HF as (_ & _ & _ & F). exact F.
 Qed.
 
 Lemma nodup_map_coarser {A B C} (f : A -> B) (g : A -> C) (l : list A) :
@@ -396,16 +608,18 @@ Proof.
   - apply IH; [|exact Hn']. intros a b Ha Hb. apply Hfg; right; assumption.
 Qed.
 
-Theorem ready_wf es : tr_ready' es -> tr_wf c es.
+Theorem ready_wf items : tr_ready' items -> tr_wf c (map fst items).
 Proof.
-  intros (Hclean & Hdist & Hpar & Hids & _). unfold tr_wf. split.
+  intros (Hclean & Hdist & Hpar & Hids & _ & Harc & Hnd). unfold tr_wf. split; [|split; [|split]].
   - intros Eo Ej. split.
-    + apply (nodup_map_coarser (fun e => tr_key c e :: tr_tail c e) _ es); [|exact Hdist].
+    + apply (nodup_map_coarser (fun e => tr_key c e :: tr_tail c e) _ (map fst items)); [|exact Hdist].
       intros x y Hx Hy Heq. inversion Heq as [[Hid Ht]]. f_equal; [apply Hids; assumption|].
       unfold tr_tail, tr_payload. rewrite Ej. cbn [tr_p_tail s_rel]. exact Ht.
     + intros pre e post Hes Ht. destruct (Hpar pre e post Hes) as (e' & Hi & _ & Hid & _); [|eauto].
       unfold tr_tail, tr_payload. rewrite Ej. exact Ht.
   - intros _. exact Hdist.
+  - intros e He Hne. destruct (Harc e He Hne) as (A & B & _). split; assumption.
+  - exact Hnd.
 Qed.
 
 End Progress.
